@@ -171,6 +171,15 @@ def run(ctx):
                     r.check("R11.3", lo is not None and lo <= ar <= hi, "%s::%s arity" % (rel, kind), "%s:%d" % (rel, n.lineno),
                             "%s returns %d components for %s; __iter__ expects %s" % (qual, ar, kind, (lo, hi)),
                             detail={"walker": rel, "kind": kind, "arity": ar})
+                    if kind == "ELEMENT" and rel.endswith("dom.py") and ar >= 3:
+                        nm = norm(n.value.elts[2])
+                        # the parser never splits a tag name at a colon: <o:p> is an HTML element called "o:p"; DOM's localName is "p"
+                        r.idiom("R11.3", nm.endswith(".nodeName") or nm.endswith(".tagName"), "%s::element-name" % rel, "%s:%d" % (rel, n.lineno),
+                                "the DOM walker's element name `%s` was not recognised" % nm,
+                                wrong=[(nm.endswith(".localName"),
+                                        "the DOM walker reports an element's localName: tag names that contain a colon (<o:p>, <st1:place>, "
+                                        "<rdf:RDF>) lose their prefix, the rebuilt tree differs and the two walkers disagree")],
+                                detail={"name_expr": nm})
         need = {"DOCTYPE", "TEXT", "ELEMENT", "COMMENT", "DOCUMENT"}
         r.check("R11.3", need <= kinds_seen, "%s::kinds" % rel, f.where, "%s does not report node kinds %s" % (qual, sorted(need - kinds_seen)))
         keys = [n.targets[0].slice for n in ast.walk(f.node) if isinstance(n, ast.Assign) and isinstance(n.targets[0], ast.Subscript)
